@@ -4,13 +4,13 @@
 import json, os, re
 ROOT = os.path.dirname(os.path.dirname(os.path.abspath(__file__)))
 res = {}
-for line in open(os.path.join(ROOT, "gen/logs/seed_results.txt")):
+for line in open(os.path.join(ROOT, "seeded/RESULTS.txt")):
     if " :: " not in line:
         continue
     name, r = line.rstrip("\n").split(" :: ", 1)
     res[name] = r
 rows = []
-for d in sorted(os.listdir(os.path.join(ROOT, "seeded"))):
+for d in sorted(x for x in os.listdir(os.path.join(ROOT, "seeded")) if os.path.isdir(os.path.join(ROOT, "seeded", x))):
     meta = json.load(open(os.path.join(ROOT, "seeded", d, "meta.json")))
     r = res.get(d, "")
     parts = [p for p in r.split("|") if p]
